@@ -117,6 +117,7 @@ void register_monitor(const Monitor& m);
 const std::vector<Monitor>& all_monitors();
 // fuzz helpers: split fuzzer bytes into two texts at the first newline
 static inline void fuzz_split2(const unsigned char* d, size_t n, Str* a, Str* b) { size_t i = 0; while (i < n && d[i] != '\n') i++; a->assign((const char*)d, i); if (i < n) b->assign((const char*)d + i + 1, n - i - 1); else b->clear(); }
+extern const char* (*crash_explain)(const void* fault_addr);   // optional: a monitor explains a faulting address (e.g. "inside the read-only arena of shared inputs"); no spaces
 Ctx* current_ctx();                 // the worker's context (for attribution from helpers that have no Ctx at hand)
 // While alive, a crash / sanitizer abort is attributed to `prop` instead of the monitor's current property.
 struct AttrScope {
